@@ -782,6 +782,9 @@ class BaseImage(metaclass=ImageMeta):
                     except (KeyboardInterrupt, Exception):
                         self._handle_interrupted_draw()
                         raise
+            except KeyboardInterrupt:
+                if not animation:
+                    raise
             finally:
                 # Reset color and show the cursor
                 print(SGR_DEFAULT, SHOW_CURSOR * sys.stdout.isatty(), sep="")
